@@ -200,7 +200,7 @@ func UnmarshalAttribute(attr *api.Attribute) (bgp.PathAttributeInterface, error)
 					s := &bgp.TunnelEncapSubTLVSRSegmentList{
 						TunnelEncapSubTLV: bgp.TunnelEncapSubTLV{
 							Type:   bgp.ENCAP_SUBTLV_TYPE_SRSEGMENT_LIST,
-							Length: uint16(6), // Weight (6 bytes) + length of segment (added later, after all segments are discovered)
+							Length: uint16(1), // Reserved (1 byte) + weight and segments (added later)
 						},
 						Segments: make([]bgp.TunnelEncapSubTLVInterface, 0),
 					}
@@ -213,6 +213,7 @@ func UnmarshalAttribute(attr *api.Attribute) (bgp.PathAttributeInterface, error)
 							Flags:  uint8(w.Flags),
 							Weight: w.Weight,
 						}
+						s.Length += uint16(s.Weight.Len())
 					}
 					if len(sv.SrSegmentList.Segments) != 0 {
 						s.Segments, err = UnmarshalSRSegments(sv.SrSegmentList.Segments)
@@ -222,7 +223,7 @@ func UnmarshalAttribute(attr *api.Attribute) (bgp.PathAttributeInterface, error)
 					}
 					// Get total length of Segment List Sub TLV
 					for _, seg := range s.Segments {
-						s.Length += uint16(seg.Len() + 2) // Adding 1 byte of type and 1 byte of length for each Segment object
+						s.Length += uint16(seg.Len()) // Len() covers the type and length bytes of the Segment object
 					}
 					subTlv = s
 				case *api.TunnelEncapTLV_TLV_Unknown:
@@ -3553,6 +3554,7 @@ func UnmarshalSRSegments(s []*api.TunnelEncapSubTLVSRSegmentList_Segment) ([]bgp
 					FuncLen:  uint8(ebs.FuncLen),
 					ArgLen:   uint8(ebs.ArgLen),
 				}
+				seg.Length += 8 // SRv6 Endpoint Behavior and SID Structure
 			}
 			segments[i] = seg
 		default:
